@@ -653,11 +653,12 @@ impl Suite for Canary {
     }
     fn generate(&self, seed: u64, tier: &str) -> Vec<Case> {
         let mut r = Rng::new(seed ^ 0xC11_0001);
-        let n = if tier == "thorough" { 1_200 } else { 260 };
+        let n = if tier == "thorough" { 1_200 } else { 220 };
         let mut cases = vec![];
-        // every known-finding request once, with 1 and with 2 workers, followed by two more rounds
-        for (id, rq) in damaging_pool() {
-            for threads in [1u64, 2] {
+        // every known-finding request once, followed by two more rounds
+        for (k, (id, rq)) in damaging_pool().into_iter().enumerate() {
+            // alternate 1 worker in memory / 2 workers on disk (the random scenarios cover the other combinations)
+            for threads in [1 + (k as u64 % 2)] {
                 let sc = Sx::tagged(
                     "scenario",
                     vec![
